@@ -24,19 +24,19 @@ type Spec struct {
 	Seed int64  `json:"seed"`
 	Mode string `json:"cancel_mode"` // ctx | ctx-twice | ctx-then-httpclose | httpclose | httpclose-then-ctx | early | before-serve | binary
 
-	Stalled0    int `json:"stalled_no_bytes"`     // TCP connected, nothing sent
-	StalledHalf int `json:"stalled_half_hello"`   // TCP connected, half a ClientHello sent
-	NewH1       int `json:"h1_handshaked_silent"` // handshaked HTTP/1.1, no complete request yet (net/http StateNew)
-	IdleH1      int `json:"h1_idle_keepalive"`    // one completed request, keep-alive
-	IdleH2      int `json:"h2_idle"`              // one completed request
-	GatedH2     int `json:"h2_gated_detached"`    // in-flight h2 request, handler ignores its context
-	GatedH2Ctx  int `json:"h2_gated"`             // in-flight h2 request through the unmodified handler
-	GatedH1     int `json:"h1_gated_detached"`    // in-flight h1 exchange, handler ignores its context; released by the script
-	GatedH1Ctx  int `json:"h1_gated"`             // in-flight h1 exchange through the unmodified handler
-	AttPre      int `json:"attempts_just_before"` // new connections racing with the cancel (not judged)
-	AttDuring   int `json:"attempts_during"`      // started together with the cancel call (not judged)
-	AttPost     int `json:"attempts_after"`       // dial started after the cancel returned (judged)
-	HoldMs      int `json:"hold_ms"`              // cancel -> first release of a detached h1 gate
+	Stalled0    int  `json:"stalled_no_bytes"`     // TCP connected, nothing sent
+	StalledHalf int  `json:"stalled_half_hello"`   // TCP connected, half a ClientHello sent
+	NewH1       int  `json:"h1_handshaked_silent"` // handshaked HTTP/1.1, no complete request yet (net/http StateNew)
+	IdleH1      int  `json:"h1_idle_keepalive"`    // one completed request, keep-alive
+	IdleH2      int  `json:"h2_idle"`              // one completed request
+	GatedH2     int  `json:"h2_gated_detached"`    // in-flight h2 request, handler ignores its context
+	GatedH2Ctx  int  `json:"h2_gated"`             // in-flight h2 request through the unmodified handler
+	GatedH1     int  `json:"h1_gated_detached"`    // in-flight h1 exchange, handler ignores its context; released by the script
+	GatedH1Ctx  int  `json:"h1_gated"`             // in-flight h1 exchange through the unmodified handler
+	AttPre      int  `json:"attempts_just_before"` // new connections racing with the cancel (not judged)
+	AttDuring   int  `json:"attempts_during"`      // started together with the cancel call (not judged)
+	AttPost     int  `json:"attempts_after"`       // dial started after the cancel returned (judged)
+	HoldMs      int  `json:"hold_ms"`              // cancel -> first release of a detached h1 gate
 	Stagger     bool `json:"stagger_release"`
 	EarlyYields int  `json:"early_yields"` // scheduler yields between starting Serve and cancelling (mode early)
 
@@ -313,6 +313,7 @@ func main() {
 		a.account(o)
 		a.judge(o, true)
 		run.Set("serve_return_latency", a.latencyStats())
+		removeBinary()
 		run.Finish()
 	}
 
@@ -337,11 +338,20 @@ func main() {
 			run.Logf("scenarios %d/%d", hi, len(specs))
 		}
 	}
+	// a watchdog miss is re-run alone (nothing else loading the machine) before it
+	// is reported; after three reproduced misses the remaining ones add nothing
+	reproduced := 0
 	for _, sp := range retry {
+		if reproduced >= 3 {
+			run.Add("bound_misses_not_rerun_after_3_reproduced", 1)
+			continue
+		}
 		o := runBatch(run, []Spec{sp}, 1)[0]
 		a.account(o)
 		if len(o.findings) == 0 && o.setupErr == "" {
 			run.Add("bound_miss_not_reproduced_in_isolation", 1)
+		} else {
+			reproduced++
 		}
 		a.judge(o, true)
 	}
@@ -373,6 +383,7 @@ func main() {
 			}
 			run.Require("signal_runs_exited", 18)
 		}
+		removeBinary()
 	}
 
 	run.Set("serve_return_latency", a.latencyStats())
